@@ -495,8 +495,10 @@ def rename(name, casing):
 # test of a `cover!` instead of the failed assertion's. Each harness draws one extra symbolic bool: `true` runs the covers,
 # `false` asserts the post-condition. The post-condition itself is evaluated BEFORE the branch (a call under a symbolic guard
 # defeats CBMC's constant propagation of the sink length), so it is checked for every value.
-def harness_text(name, td, v, symbolic_opts, post_call, covers, doc=None, assert_text="post_fmt"):
+def harness_text(name, td, v, symbolic_opts, post_call, covers, doc=None, assert_text="post_fmt", assume=None):
     opts = "any_options()" if symbolic_opts else "FormattingOptions::new()"
+    if assume:
+        opts += ";\n        kani::assume(%s)" % assume
     cov = "".join('            kani::cover!(%s, "%s");\n' % (c, m) for c, m in covers)
     return ('%s    #[kani::proof]\n    fn %s() {\n        let v = %s;\n        let o = %s;\n'
             '        let out = run(o, |f| <%s as fmt::%s>::fmt(&v, f));\n        let post = %s;\n'
